@@ -536,6 +536,17 @@ impl CloseGroupValidator {
         let start = Instant::now();
         let mut result = CloseGroupValidationResult::new(node_id.clone());
 
+        // A witness is a peer, not an answer: a peer that answers several times still
+        // counts once (its first answer), otherwise f witnesses could outvote the rest
+        // simply by repeating themselves.
+        let mut seen_peers = HashSet::new();
+        let distinct_responses: Vec<CloseGroupResponse> = responses
+            .iter()
+            .filter(|r| seen_peers.insert(r.peer_id.clone()))
+            .cloned()
+            .collect();
+        let responses = distinct_responses.as_slice();
+
         // Check if we have enough responses
         if responses.len() < self.config.min_peers_to_query {
             result.add_failure(CloseGroupFailure::InsufficientConfirmation);
